@@ -112,7 +112,7 @@ mut("c14_hash_order_output", "C14", "cij/core/calculator.py",
 mut("c14_v2p_cache_by_id", "C14", "cij/core/calculator.py",
     "    def __getitem__(self, key: str) -> numpy.ndarray:\n        return self.v2p(self.modulus[key])\n",
     "    def __getitem__(self, key: str) -> numpy.ndarray:\n        k = (id(self.modulus), str(key))\n        if k not in _V2P_CACHE:\n            _V2P_CACHE[k] = self.v2p(self.modulus[key])\n        return _V2P_CACHE[k]\n",
-    note="module-level cache keyed by id(): stale values are served once a dropped calculator's id is re-used (calc.drop, then another client's calc.new)")
+    expect="either", note="module-level cache keyed by id(): stale values are served once a dropped calculator's id is re-used (calc.drop, then another client's calc.new); whether CPython re-uses the address is not behind a seam (DESIGN 10.2)")
 
 # ---- C15 -------------------------------------------------------------------------------------
 mut("c15_outdir_frozen_at_init", "C15", "cij/core/calculator.py",
